@@ -107,7 +107,7 @@ def make_payload(kind, nrec, variant, sdir, rng):
 BAD_HASHES = 9      # spellings of "a different hash" (run_case)
 
 
-def run_case(tid, kind, nrec, variant, sig, chunk, rng, badhash=None):
+def run_case(tid, kind, nrec, variant, sig, chunk, rng, badhash=None, into_existing=False):
     base = os.path.join(common.OUT, "sbx_%d_%d" % (os.getpid(), tid))
     shutil.rmtree(base, ignore_errors=True)
     sdir, rdir = os.path.join(base, "s"), os.path.join(base, "r")
@@ -115,6 +115,7 @@ def run_case(tid, kind, nrec, variant, sig, chunk, rng, badhash=None):
     os.makedirs(rdir)
     rec = {"tid": tid, "kind": kind, "nrec": nrec, "variant": variant, "sig": sig, "chunk": chunk or 0}
     patched = None
+    patched_input = None
     try:
         if sig["fault"] == "replay":
             # an earlier record in place of a later one of the same length: whole records only, random content
@@ -130,7 +131,21 @@ def run_case(tid, kind, nrec, variant, sig, chunk, rng, badhash=None):
         w = X.XferWorld(base)
         w.chunk = chunk
         w.start_send(sdir, what=what)
-        w.start_receive(rdir)
+        if into_existing:
+            # --output-file names an existing directory that already holds something of the offered name (an earlier receive of
+            # the same thing) and the user says yes at the prompt: whatever the command then does, success means identical
+            os.makedirs(os.path.join(rdir, "D", what) if kind == "dir" else os.path.join(rdir, "D"))
+            stale_p = os.path.join(rdir, "D", what, "left over.txt") if kind == "dir" else os.path.join(rdir, "D", what)
+            with open(stale_p, "w") as f:
+                f.write("from an earlier transfer")
+            import builtins
+            orig_input = builtins.input
+            builtins.input = lambda prompt="": "y"
+            patched_input = (builtins, orig_input)
+            before_D = X.snapshot(os.path.join(rdir, "D"))
+            w.start_receive(rdir, accept=False, output_file="D")
+        else:
+            w.start_receive(rdir)
         fault = sig["fault"]
         if fault in ("badhash", "nohash", "notok"):
             from wormhole.cli import cmd_receive
@@ -183,7 +198,7 @@ def run_case(tid, kind, nrec, variant, sig, chunk, rng, badhash=None):
         w.run(until=w.done, max_virtual=600.0)
         okS, okR = w.ok("send"), w.ok("recv")
         snap = X.snapshot(rdir)
-        destname = what
+        destname = what if not into_existing else os.path.join("D", what)
         dest_path = os.path.join(rdir, destname)
         exists = os.path.lexists(dest_path)
         if kind == "file":
@@ -198,6 +213,12 @@ def run_case(tid, kind, nrec, variant, sig, chunk, rng, badhash=None):
         tmp_left = any(p.endswith(".tmp") and p != destname for p in snap)
         others = sorted(p for p in snap if p != destname and not p.startswith(destname + os.sep) and not p.endswith(".tmp"))
         internal = ["%s: %s" % (type(e).__name__, str(e)[:80]) for _, e in w.internal]
+        if into_existing:
+            # what was there before is not "a destination that appeared": the question is whether anything under D changed - and
+            # if it did, the result must be the source, complete, with success reported (a refusal that leaves D alone is fine)
+            exists = exists and X.snapshot(os.path.join(rdir, "D")) != before_D
+            others = [p for p in others if p != "D" and not p.startswith("D" + os.sep)]
+            fault = "preexisting"
         rec.update({"okS": okS, "okR": okR, "destExists": bool(exists), "equal": bool(equal), "tmpLeft": bool(tmp_left),
                     "fault": fault, "beforeAll": bool(before_all), "others": others, "internal": internal,
                     "events": [list(e) for e in w.events], "text": False, "textExact": True,
@@ -205,6 +226,8 @@ def run_case(tid, kind, nrec, variant, sig, chunk, rng, badhash=None):
         w.shutdown()
         return rec
     finally:
+        if patched_input:
+            patched_input[0].input = patched_input[1]
         if patched:
             patched[0]._close_transit = patched[1]
         shutil.rmtree(base, ignore_errors=True)
@@ -320,6 +343,16 @@ def run(prop, tier):
                     got = {"okS": rec["okS"], "okR": rec["okR"], "dest": "src" if rec["destExists"] and rec["equal"] else ("-" if not rec["destExists"] else "other")}
                     if got != exp and len(drift) < 10:
                         drift.append({"tid": tid, "kind": kind, "n": n, "sig": {k: sig[k] for k in ("fault", "at")}, "spec": exp, "real": got})
+        # family: the destination is not empty (--output-file names an existing directory that already holds the offered name,
+        # the user agrees at the prompt)
+        clean = [sig for key, sig in sorted(sigs.items(), key=lambda kv: str(kv[0])) if sig["fault"] == "-" and key[0] >= 1][:1]
+        for sig in clean:
+            for kind in ("dir", "file"):
+                for variant in range(1 if quick else 3):
+                    tid += 1
+                    rec = run_case(tid, kind, 1, variant, sig, None, random.Random(seed * 131 + tid), into_existing=True)
+                    rec["origin"] = "family:into-existing"
+                    records.append(rec)
         # family: every spelling of "the acknowledgement carries a different hash" (the model's ack kind "badhash")
         bh = [sig for key, sig in sorted(sigs.items(), key=lambda kv: str(kv[0])) if sig["fault"] == "badhash"][:1 if quick else 3]
         for sig in bh:
